@@ -5,7 +5,8 @@
 
 const char* vh_property = "C15";
 static const char* FMT[3] = {"fasta", "clu", "msf"};
-#define NBIGROWS 2      /* writers' line buffer growth: > 1024 output lines */
+#define NBIGROWS 8      /* writers' line buffer growth: > 1024 output lines: two run-produced alignments, and alignments of 1011..1016 rows x 70 columns
+                           read from a file (header + rows + block separators land on the 1024-line growth step of the writers for some of them) */
 
 /* ragged read inputs: 2..3 records, 1..3 residues each, 0..1 leading and 0..2 trailing gap characters, read from a FASTA file and
    written without a run (what kalignfmt does): the writer may refuse; a file it does write must be well-formed */
@@ -158,6 +159,43 @@ void vh_describe(uint64_t id, int tier, char* buf, size_t n)
         }
 }
 
+static int build_big_file(int rows, struct af_member* a)
+{
+        static char base[80];
+        char path[400];
+        uint64_t st = 4040 + (uint64_t)rows;
+        FILE* f;
+        int i, j, w = 70;
+        memset(a, 0, sizeof *a);
+        sh_random_seq(&st, "ACGT", w, base);
+        a->n = rows;
+        a->rows = malloc(sizeof(char*) * (size_t)rows);
+        a->names = malloc(sizeof(char*) * (size_t)rows);
+        snprintf(path, sizeof path, "%s/af_bigfile.afa", vh_tmpdir);
+        f = fopen(path, "w");
+        for(i = 0; i < rows; i++){
+                char nm[16];
+                a->rows[i] = malloc((size_t)w + 1);
+                for(j = 0; j < w; j++){
+                        a->rows[i][j] = (j == 5 + i % 60) ? '-' : ((j == i % 70) ? "ACGT"[(i / 70) % 4] : base[j]);
+                }
+                a->rows[i][w] = 0;
+                snprintf(nm, sizeof nm, "r%04d", i);
+                a->names[i] = strdup(nm);
+                fprintf(f, ">%s\n%s\n", nm, a->rows[i]);
+        }
+        fclose(f);
+        a->width = w;
+        a->from_file = 1;
+        a->protein = 0;
+        if(kalign_read_input(path, &a->m, 1) != OK || !a->m){
+                a->m = NULL;
+                return -1;
+        }
+        a->valid = 1;
+        return 1;
+}
+
 static int build_big(int which, struct af_member* a)
 {
         struct kx_set in;
@@ -199,7 +237,7 @@ int vh_case(uint64_t id, int tier)
         if(k >= af_count(tier)){
                 vh_case_timeout = 200;
                 alarm(200);
-                b = build_big((int)(k - af_count(tier)), &a);
+                b = (k - af_count(tier)) < 2 ? build_big((int)(k - af_count(tier)), &a) : build_big_file(1011 + (int)(k - af_count(tier)) - 2, &a);
         }else{
                 b = af_build(k, vh_seed, vh_tmpdir, &a);
         }
